@@ -307,9 +307,24 @@ func c05Values(r *rt.Rec, rng *rand.Rand, per int) {
 func c05Graphs(r *rt.Rec, rng *rand.Rand, n int) {
 	for k := 0; k < n; k++ {
 		sz := rng.Intn(41)
+		if k%8 == 7 {
+			// a graph whose text is much larger than any reader buffer
+			sz = 100 + rng.Intn(400)
+		}
 		var ts []*triple.Triple
 		for i := 0; i < sz; i++ {
 			ts = append(ts, gen.HTriple(rng, true))
+		}
+		if k%4 == 3 && sz > 0 {
+			// lines longer than 4 KiB and longer than 64 KiB: one long text, one long
+			// id (a printed triple is one line whatever its length)
+			long := strings.Repeat("lorem ipsum ", 350+rng.Intn(100))
+			ts = append(ts, gen.MustTriple(gen.VNodes[0], gen.MustImm("long"), triple.NewLiteralObject(gen.MustLit(literal.Text, long))))
+			ts = append(ts, gen.MustTriple(gen.MustNode("/u", strings.Repeat("n", 4090+rng.Intn(20))), gen.MustImm("p"), triple.NewNodeObject(gen.VNodes[1])))
+			if k%16 == 15 {
+				ts = append(ts, gen.MustTriple(gen.VNodes[2], gen.MustImm("huge"), triple.NewLiteralObject(gen.MustLit(literal.Text, strings.Repeat("x", 70000)))))
+			}
+			rng.Shuffle(len(ts), func(a, b int) { ts[a], ts[b] = ts[b], ts[a] })
 		}
 		tag := fmt.Sprintf("#%d size=%d", k, sz)
 		if !guard(r, "graph-roundtrip", tag, func() { rtGraph(r, ts, tag) }) && sz > 1 {
